@@ -44,6 +44,14 @@ def run_case(case, eng, res):
         dt = SymChoice.mk(idx, members)
         if case["kind"] == "ctor":
             cls = getattr(dev, case["cls"])
+            if case.get("before"):
+                # an earlier construction (same device id, any type, accepted or refused) in the same process
+                idx0 = A.fresh_int(path, "dtype0", 0, len(members) - 1)
+                path.notes["idx0"] = idx0
+                try:
+                    getattr(dev, case["before"])(*ctor_args(dev, case["before"], SymChoice.mk(idx0, members)))
+                except Exception:  # noqa: BLE001
+                    pass
             try:
                 obj = cls(*ctor_args(dev, case["cls"], dt))
                 return ("ok", obj, idx, dt)
@@ -59,6 +67,12 @@ def run_case(case, eng, res):
         path.twin("C19")
         tag, obj, idx, dt = out
         checks = []
+
+        def before_of(m, path=path):
+            if not case.get("before"):
+                return {}
+            return {"before": {"cls": case["before"], "dtype": names[C.ev_int(m, path.notes["idx0"])]}}
+
         # which member names belong to this class's category according to the statement
         if case["kind"] == "ctor":
             want = CLASSES[case["cls"]]
@@ -114,11 +128,12 @@ def run_case(case, eng, res):
             if m is not None:
                 k = C.ev_int(m, idx)
                 res["violations"].append({"what": "C19 %s (%s, %s)" % (lbl, case.get("cls", "tables"), names[k]), "case": case,
-                                          "replay": {"kind": "c19", "cls": case.get("cls"), "dtype": names[k], "oracle": "C19"}})
+                                          "replay": dict({"kind": "c19", "cls": case.get("cls"), "dtype": names[k], "oracle": "C19"},
+                                                         **before_of(m))})
         mw = path.witness()
         k = C.ev_int(mw, idx)
         if case["kind"] == "ctor":
-            res["witnesses"].append({"replay": {"kind": "c19", "cls": case["cls"], "dtype": names[k], "oracle": "C19"},
+            res["witnesses"].append({"replay": dict({"kind": "c19", "cls": case["cls"], "dtype": names[k], "oracle": "C19"}, **before_of(mw)),
                                      "expected": {"constructed": tag == "ok"}})
         if len(res["samples"]) < 2:
             res["samples"].append({"case": case, "witness_type": names[k], "outcome": tag})
@@ -129,6 +144,7 @@ def run_case(case, eng, res):
 def main(tier):
     t0 = time.time()
     cases = [{"kind": "ctor", "cls": c} for c in CLASSES] + [{"kind": "tables"}]
+    cases += [{"kind": "ctor", "cls": c, "before": b} for c in CLASSES for b in CLASSES]
     results = H.run_cases("harness.C19", "run_case", cases)
     nw = H.validate_call_witnesses(results, cmp=lambda exp, o: o.get("constructed") == exp["constructed"])
     H.finish(PID, tier, "model_checking", results, t0,
